@@ -173,6 +173,7 @@ func Harness_C08_run() {
 	close(ch2.in)
 	st2 := s.WaitStatus()
 	vassert(st2.Closed, "C08: the restarted server stops cleanly")
+	quiesce() // a goroutine past its last synchronisation may still have to return
 	vassert(liveThreads() == "", "C08: no goroutine is left behind")
 	reach("restarted")
 }
